@@ -103,7 +103,7 @@ def _dap_binary(tier):
     import vlib
     target = os.path.join(vlib.BUILD, "dap")
     binary = os.path.join(target, "debug", "trust-debug")
-    cmd = ["cargo", "build", "--offline", "--quiet", "--manifest-path", "/repo/Cargo.toml", "-p", "trust-debug",
+    cmd = ["cargo", "build", "--offline", "--quiet", "--manifest-path", os.path.join(vlib.repo_root(), "Cargo.toml"), "-p", "trust-debug",
            "--target-dir", target]
     try:
         rc, log = vlib.sh(cmd, timeout=3600)
@@ -126,7 +126,7 @@ def extra(ctx):
     cov = {"layer1_cases": mon, "layer2_cases": rt, "watchdog_expiries": hangs}
     out = {"coverage": cov, "known": [], "oracle_failures": [], "failures": []}
     # The adapter model is read from the source: fail closed if the source no longer looks like it.
-    stop_rs = "/repo/crates/trust-debug/src/adapter/stop.rs"
+    stop_rs = os.path.join(vlib.repo_root(), "crates/trust-debug/src/adapter/stop.rs")
     frags = [r"pause_expected\.swap\(false", r"let still_parked = self\.stop_control\.is_paused\(\)",
              r"last\.location == stop\.location", r"last\.thread_id == stop\.thread_id",
              r"last\.breakpoint_generation == stop\.breakpoint_generation",
